@@ -326,13 +326,25 @@ class World:
             self.results[text] = (plain, num)
         return self.results[text]
 
-    def render(self, text, model):
+    def unquantized(self, text):
+        """Diagnosis only: the numberified API result WITHOUT the ledger's display context."""
+        plain, _ = self.result(text)
+        if isinstance(plain, Exception):
+            return plain
+        try:
+            return numberify_results(plain[0], plain[1])
+        except Exception as exc:        # noqa: BLE001
+            return exc
+
+    def render(self, text, model, unquantized=False):
         """What the selected renderer prints for the API result under the model's settings."""
-        key = (text, S.plan_key(model))
+        key = (text, S.plan_key(model), unquantized)
         if key not in self.rendered:
             plan = S.render_plan(model)
             plain, num = self.result(text)
             res = num if plan['numberify'] else plain
+            if unquantized and plan['numberify']:
+                res = self.unquantized(text)
             if isinstance(res, Exception):
                 out = res
             else:
@@ -859,7 +871,20 @@ class ShellProduct:
                 self.info['matched'] = i
                 break
         else:
-            fp, note = diagnose(out)
+            fp, note = None, ''
+            if kind != 'print' and self.model.numberify:
+                for t in texts:
+                    try:
+                        same = w.render(t, self.model, unquantized=True) == out
+                    except Exception:       # noqa: BLE001 - diagnosis only
+                        same = False
+                    if same:
+                        fp = 'numberify:display-precision-not-applied'
+                        note = (' (it is the numberified result WITHOUT the quantisation to the display precision of '
+                                'the ledger\'s currencies)')
+                        break
+            if fp is None:
+                fp, note = diagnose(out)
             e0 = expected[0]
             problems.append((fp, f'{line!r} in state {self.model.asdict()}: stdout differs from the renderer applied to '
                                  f'the API result{note}\n    expected {e0!r}\n    actual   {out!r}'))
@@ -1331,9 +1356,22 @@ def cli_case(case, tmpdir):
         return f.getvalue()
     expected = reference(case['format'], case['numberify'])
 
+    def unquantized():
+        plan = S.render_plan(defaults.replace('format', case['format']).replace('numberify', True))
+        desc, rows = numberify_results(desc0, rows0)
+        f = io.StringIO()
+        (render_text if plan['format'] == 'text' else render_csv)(desc, rows, dcontext, f, **plan['options'])
+        return f.getvalue()
+
     def locus(observed):
         """Name the option that was not applied, if the observed text is the reference of another choice."""
         other_fmt = 'csv' if case['format'] == 'text' else 'text'
+        if case['numberify'] and rows0:
+            try:
+                if observed == unquantized() != expected:
+                    return 'numberify:display-precision-not-applied'
+            except Exception:       # noqa: BLE001 - diagnosis only
+                pass
         if observed == reference(case['format'], not case['numberify']) != expected:
             return 'cli:-m-not-applied'
         if observed == reference(other_fmt, case['numberify']) != expected:
